@@ -366,6 +366,43 @@ func runEncoding(e *Enc, fn *ssa.Function, props []string) {
 				e.obligs = append(e.obligs, o)
 				continue
 			}
+			if strings.HasPrefix(fc.Text, "callsonly ") {
+				pats := strings.Fields(fc.Text)[1:]
+				var hit []string
+				for _, b := range fn.Blocks {
+					for _, in := range b.Instrs {
+						ci, ok := in.(ssa.CallInstruction)
+						if !ok {
+							continue
+						}
+						if _, isBuiltin := ci.Common().Value.(*ssa.Builtin); isBuiltin {
+							continue // len, cap, append, ...: not calls of functions
+						}
+						name := calleeName(ci.Common())
+						if sc := ci.Common().StaticCallee(); sc != nil && sc.Pkg != nil && P.Funcs[funcKey(sc)] != sc {
+							name = externName(sc)
+						}
+						ok2 := false
+						for _, pat := range pats {
+							if globMatch(pat, name) {
+								ok2 = true
+							}
+						}
+						if !ok2 {
+							hit = append(hit, name)
+						}
+					}
+				}
+				sort.Strings(hit)
+				o := &Oblig{Name: e.Key + "#frame[" + fc.Text + "]", Kind: "frame", Props: fc.Props, Func: e.Key, Pos: fmt.Sprintf("%s:%d", filepath.Base(sp.File), fc.Line), Reach: tTrue, Goal: tFalse, enc: e}
+				if len(hit) == 0 {
+					o.Result = &SolveResult{Status: "unsat", Backend: "call-graph"}
+				} else {
+					o.Result = &SolveResult{Status: "unknown", Backend: "call-graph", Output: "also calls: " + strings.Join(hit, ", ")}
+				}
+				e.obligs = append(e.obligs, o)
+				continue
+			}
 			if strings.HasPrefix(fc.Text, "calledby ") {
 				// every static call of this function in the program is in one of the listed functions
 				pats := strings.Fields(fc.Text)[1:]
@@ -445,6 +482,35 @@ func runEncoding(e *Enc, fn *ssa.Function, props []string) {
 				o.Result = &SolveResult{Status: "unknown", Backend: "effects-analysis", Output: "may write: " + strings.Join(hit, ", ")}
 			}
 			e.obligs = append(e.obligs, o)
+		}
+	}
+	// packages that declare "default variants": every loop that is not a range
+	// loop has a variant (decreases) or says why none is claimed (unbounded)
+	if f.depth == 0 && fn.Pkg != nil {
+		if _, need := P.Specs.NeedVariants[fn.Pkg.Pkg.Name()]; need {
+			var lis []*loopInfo
+			for _, li := range f.loops {
+				lis = append(lis, li)
+			}
+			sort.Slice(lis, func(i, j int) bool { return lis[i].ordinal < lis[j].ordinal })
+			for _, li := range lis {
+				hdr := P.loopHeaderText(fn, li)
+				if strings.Contains(hdr, " range ") {
+					continue // terminates by construction
+				}
+				ls := f.matchLoop(sp, li)
+				if ls != nil && (len(ls.Decreases) > 0 || ls.Unbounded != "") {
+					if ls.Unbounded != "" {
+						e.waived = append(e.waived, fmt.Sprintf("%s#terminates[loop %q]: %s", e.Key, hdr, ls.Unbounded))
+					}
+					continue
+				}
+				name := fmt.Sprintf("loop %q has a variant", hdr)
+				if hdr == "" {
+					name = fmt.Sprintf("loop #%d (formed by goto) has a variant", li.ordinal)
+				}
+				e.addOblig("terminates", name, f.props, P.position(li.header.Instrs[0].Pos()), tTrue, tFalse)
+			}
 		}
 	}
 	// unused loop specs / anchors are failed obligations (the contract no longer covers the code)
